@@ -443,3 +443,52 @@ Example ws_short_nonvacuous :
   ws_recv (Server 100) [x00; x00] = WPanic /\ ws_recv (Server 100) [x80] = WBadHeader /\
   ws_recv (Server 100) (ws_frame 6 [x41]) = WDeliver 6 [x41].
 Proof. vm_compute. repeat split; reflexivity. Qed.
+
+(* ---------------------------------------------------------------- the Go text itself --- *)
+(* T2: Gen/GoFuncs.v is regenerated from rpc/socket/common.go and rpc/udp/common.go on every run by
+   tools/gotables (golite.go); Proofs/GoFuncsProofs.v proves the generated makeHeader/parseHeader equal
+   to the hand models above for ALL arguments, so the header theorems hold of the source as it is now.
+   [GPanic] is Go's index-out-of-range panic (a slice shorter than 8 bytes for the UDP parseHeader). *)
+From HV Require Import Lib.GoLite Gen.GoFuncs Proofs.GoFuncsProofs.
+
+Theorem C12_source_header_roundtrip_socket : forall length index, 0 <= length < 2147483648 ->
+  exists h, socket_makeHeader length index = GRet h /\
+            socket_parseHeader h =
+            GRet (length, (index mod 4294967296) mod 2147483648, index mod 4294967296 <? 2147483648).
+Proof. exact socket_source_roundtrip. Qed.
+Print Assumptions C12_source_header_roundtrip_socket.
+
+Theorem C12_source_header_roundtrip_udp : forall length index, 0 <= length < 65536 ->
+  exists h, udp_makeHeader length index = GRet h /\
+            udp_parseHeader h = GRet (length, (index mod 65536) mod 32768, index mod 65536 <? 32768).
+Proof. exact udp_source_roundtrip. Qed.
+Print Assumptions C12_source_header_roundtrip_udp.
+
+Theorem C12_source_single_bit_socket : forall length index k h, (k < 96)%nat ->
+  socket_makeHeader length index = GRet h -> socket_parseHeader (flip_bit k h) = GRet REJECT.
+Proof. exact socket_source_single_bit. Qed.
+Print Assumptions C12_source_single_bit_socket.
+
+Theorem C12_source_single_bit_udp : forall length index k h, (k < 64)%nat ->
+  udp_makeHeader length index = GRet h -> udp_parseHeader (flip_bit k h) = GRet REJECT.
+Proof. exact udp_source_single_bit. Qed.
+Print Assumptions C12_source_single_bit_udp.
+
+(* the generated functions are the hand models (the obligations a change to the Go text can break) *)
+Theorem C12_source_refines_model :
+  (forall length index, socket_makeHeader length index = GRet (sock_make_header length index)) /\
+  (forall h, List.length h = 12%nat -> socket_parseHeader h = lift_hdr (sock_parse_header h)) /\
+  (forall length index, udp_makeHeader length index = GRet (udp_make_header length index)) /\
+  (forall h, List.length h = 8%nat -> udp_parseHeader h = lift_hdr (udp_parse_header h)) /\
+  (forall h, (List.length h < 8)%nat -> udp_parseHeader h = GPanic).
+Proof.
+  exact (conj socket_makeHeader_refines (conj socket_parseHeader_refines_len
+        (conj udp_makeHeader_refines (conj udp_parseHeader_refines_len udp_parseHeader_short)))).
+Qed.
+Print Assumptions C12_source_refines_model.
+
+Example source_header_nonvacuous :
+  socket_makeHeader 5 7 = GRet (sock_make_header 5 7) /\
+  socket_parseHeader (sock_make_header 5 7) = GRet (5, 7, true) /\
+  udp_parseHeader (udp_make_header 5 (Z.lor 7 32768)) = GRet (5, 7, false).
+Proof. vm_compute. repeat split. Qed.
